@@ -16,9 +16,9 @@ TEXT = {
          "Lean kernel; model validated against the real driver by the correspondence run."),
  "C03": ("Theorems: the decoder model (byte-exact port of encoding/json Decoder.Decode) is prefix-stable; the driver processes `pre ++ more` by first doing exactly what it does on `pre` and then only appending output (`prefix_processed_first`, any program/selectors/split/stream end); a file ends normally only on a clean end of stream, a fault is reported with the file name without running a rule on the partial value. Correspondence: every chunking of short streams, data delivered with the terminal error, empty reads, values above 64 KiB, truncation/corruption/reader failure at every offset, $file assigned before a fault, FIFOs and open pipes through the real binary (output visible before the rest of the stream is sent).",
          "Lean kernel; the decoder port is differentially tested against encoding/json (3.7M cases) and against the real runs; blocking reads are runtime behaviour exhibited only by the binary-level family."),
- "C04": ("Theorems: conversion to JSON terminates on every heap (cyclic or not), succeeds exactly for acyclic JSON-expressible values, preserves empties at any depth, and document -> value -> JSON is the identity up to key order and number formatting (`newValue_roundtrip`). Correspondence: documents with empties, escapes, `%`, non-ASCII, nesting up to the decoder's 10 000 levels, shared and cyclic program-built values, through json(), -o in-process and -o FILE / -o - of the real binary (also onto existing files); Go re-parse oracle.",
+ "C04": ("Theorems: conversion to JSON terminates on every heap (cyclic or not), succeeds exactly for acyclic JSON-expressible values, preserves empties at any depth, and document -> value -> JSON tree is the identity up to key order and number formatting (`newValue_roundtrip`; tree level: the written bytes are compared with Go's decoder by the correspondence run). Correspondence: documents with empties, escapes, `%`, non-ASCII, nesting up to the decoder's 10 000 levels, shared and cyclic program-built values, through json(), -o in-process and -o FILE / -o - of the real binary (also onto existing files); Go re-parse oracle.",
          "Lean kernel; MarshalIndent/Decoder ports differentially tested against encoding/json; number formatting via the exact F64 port (tested against strconv)."),
- "C05": ("Theorems: the code-shaped operator evaluation equals the kind-indexed tables of DESIGN.md section 3 for every operator and all operand values; divide/modulo error iff the (truncated) divisor is zero; + concatenates iff an operand is a string; unset/null/container comparison rules; short-circuit; `is` never evaluates its right side. Correspondence: all 15 operators x 39^2 operand pairs, operands from variables/fields/expression results, literal spellings, numerals at the double range limits, the same operator node evaluated repeatedly with changing operands, non-UTF-8 patterns (Go regexp as oracle).",
+ "C05": ("Theorems: the code-shaped evaluation of every BINARY operator equals the kind-indexed tables of DESIGN.md section 3 for all operand values (unary operators: correspondence); divide/modulo error iff the (truncated) divisor is zero; + concatenates iff an operand is a string; unset/null/container comparison rules; short-circuit; `is` never evaluates its right side. Correspondence: all 15 operators x 39^2 operand pairs, operands from variables/fields/expression results, literal spellings, numerals at the double range limits, the same operator node evaluated repeatedly with changing operands, non-UTF-8 patterns (Go regexp as oracle).",
          "Lean kernel; IEEE arithmetic, ParseFloat/FormatFloat and the RE2 subset are exact Lean re-implementations differentially tested against Go."),
  "C06": ("Theorems: `table_ok` (the regenerated Pratt table has the documented levels); all pairs (225) and triples (3375) of binary operators, assignment pairs and parenthesised pairs by complete kernel enumeration; `parse_render` / `parse_render_full` / `parse_render_redundant`: for expressions of ANY depth over the whole expression grammar except regex literals and match, parser ∘ printer = id for minimal, full and arbitrarily redundant parenthesisation; left/right associativity corollaries. Correspondence: random expression trees in five renderings incl. tight (no blanks), prefix/suffix chains on every atom kind, regex literals as operands everywhere; same AST and same value.",
          "Lean kernel; regenerated facts tie the table (parse functions identified by role) and the operand precedences to src/parser.go."),
@@ -33,12 +33,12 @@ TEXT = {
  "C11": ("Theorems: a syntax error pre-empts all output; `run_fault_discipline`: for every program, selectors and input, a run that ends successfully (or with a JSON error) raised no runtime fault anywhere, one that ends in a runtime error raised exactly one and printed nothing after it (ghost fault counter through evaluator and driver); output only appended; static rejections. Correspondence: illegal bytes / control bytes / unterminated literals spliced at every token boundary, 140 fault kinds x 141 evaluated positions, failing stores, unknown $-names, invalid regexes of every kind, output before a fault through the real binary.",
          "Lean kernel; model validated by the correspondence run."),
  "C12": ("Theorems: GetLineAndCol equals the split-at-newline specification for every offset; provenance: every position any run can report — syntax, lexical, runtime, program or -r selector — is the offset of a token of the text it is reported with (or of the offending byte of a lexical error), by inductions over the 14 parser and 15 evaluator functions (`reported_position_in_text`, `runtime_error_pos_is_token`); illegal characters exactly on the byte. Correspondence: every byte offset of multi-line texts with hostile prefixes (multi-line literals, CRLF, multi-byte), error positions of every fault kind incl. the depth limit through every frame parity, selector faults, and the binary's three diagnostic lines parsed back (several files, -f, leading blank lines).",
-         "Lean kernel; WHICH token a given fault blames is validated by correspondence (line/col/src compared), not proved."),
- "C13": ("Theorems: blanks and comments are invisible to the lexer; number / keyword / string token shapes; escapes; the parser is parametric in token positions; `newline_insertion_bytes`: in ANY program text a newline (or blanks/comment + newline) may be inserted at any token boundary as the parser lexed it, except after print/return, after a print-level comma and before `;`, without changing the AST (each exclusion shown necessary); `semicolon_for_newline_bytes`. Correspondence: 8+ layouts of each token sequence incl. CR/LF/tabs/comments, forbidden gaps, all 256 bytes in 19 lexer contexts, words/numbers adjacency, string literals.",
+         "Lean kernel; the theorems say the reported offset is the offset of SOME token of the text; WHICH token a given fault blames (the column falls inside the offending construct) is validated by correspondence (line/col/src computed from the generated text), not proved."),
+ "C13": ("Theorems: blanks and comments are invisible to the lexer; number / keyword / string token shapes; escapes; the parser is parametric in token positions (up to out-of-fuel); `newline_insertion_bytes`: in ANY program text a newline (or blanks/comment + newline) may be inserted at any token boundary as the parser lexed it, except after print/return, after a print-level comma and before `;`, without changing the AST (each exclusion shown necessary); `semicolon_for_newline_bytes`. Correspondence: 8+ layouts of each token sequence incl. CR/LF/tabs/comments, forbidden gaps, all 256 bytes in 19 lexer contexts, words/numbers adjacency, string literals.",
          "Lean kernel; the byte-level theorems hold for rule tables satisfying a decidable condition that the real table meets (checked by decide)."),
  "C14": ("Theorems about a model of the command line (exit status, -o FILE = -o -, -f = inline, stdin = file, missing file, order of files and selectors) and `r_behaves_as_beginfile_rule(_builtins)(_cli)`: for selectors built from $, literals, member/index chains, array/object literals, every method call, operators and match expressions (and the builtins when the program never rebinds them), and programs whose ENDFILE rules do not read $, the whole run with -r E and the run with the extra rule BEGINFILE { $ = E } have the same outcome, output, JSON and exit status — a relational induction over the evaluator up to renaming of cell ids. Correspondence: the real binary against library and model (hostile arguments, existing -o targets, stdin as pipe/file/socket/closed, FIFOs).",
          "Lean kernel for the wrapper model; flag parsing by package flag and the OS are trusted; several -r flags are covered by correspondence (their order is a C02 theorem)."),
- "C15": ("Theorems: push/pop/popfirst/length refine the ideal list for any operation sequence, contains agrees with == element by element, sort returns a stably sorted permutation and leaves the receiver untouched. Correspondence: random operation sequences on aliased arrays with nested method calls, the same call site active twice, histories of up to 5000 elements across capacity thresholds; ideal-list oracle.",
+ "C15": ("Theorems: push/pop/popfirst/length refine the ideal list for any sequence of these operations (index writes and methods nested in arguments: correspondence), contains agrees with == element by element, sort returns a stably sorted permutation and leaves the receiver untouched. Correspondence: random operation sequences on aliased arrays with nested method calls, the same call site active twice, histories of up to 5000 elements across capacity thresholds; ideal-list oracle.",
          "Lean kernel; model validated by the correspondence run."),
  "C16": ("Theorems: split/join laws, pluck selects own members only, ASCII case mapping, num() = nearest double / null, floor/ceil/round specification, totality of every native on every receiver kind. Correspondence: pools of receivers and arguments, digit strings of every length around int32/int53/int64/uint64 boundaries; oracles: join equals the string, Go math.* and strconv.ParseFloat on the same input.",
          "Lean kernel; Unicode case mapping outside ASCII is unmodelled (skipped and counted)."),
@@ -48,7 +48,7 @@ TEXT = {
          "Lean kernel; model validated by the correspondence run."),
  "C19": ("Theorems: `evalMatch_iff_spec`: the evaluator's match equals a reference matcher (`patMatches` by structural recursion, `firstMatch`), fuel-free; corollaries: subject evaluated once, first alternative / first case wins, literal pattern = ==, array patterns element-wise on equal length, failed alternatives' bindings invisible, block body and no match yield null, bad patterns are errors only when reached, bindings dropped afterwards. Correspondence: 41 subjects x literal case lists, structured patterns with perturbed alternatives and hostile identifier names, subjects with side effects, recursive re-entry; reference matcher in Go.",
          "Lean kernel; model validated by the correspondence run."),
- "C20": ("Theorems: a frame push beyond the limit is refused; no evaluation of any shape ever has more than callDepthLimit+1 frames open (ghost maxDepth, master invariant); array fill refused above 2^20 and exact at or below it; printf width limit; regenerated facts pin the constants. Correspondence: boundary programs at limit-1/limit/limit+1 for 8 recursion shapes and 5 contexts, also after histories of up to 200 000 records, fill indices incl. not-yet-arrays and huge values, 25-digit widths, JSON nesting at 10 000. Known finding K1 (the frame limit does not bound the Go stack) is reported as KNOWN-FINDING.",
+ "C20": ("Theorems (see REVIEW.md for what each statement does and does not say): a frame push beyond the limit is refused; no evaluation of any shape ever has more than callDepthLimit+1 frames open (ghost maxDepth, master invariant); array fill refused above 2^20 and exact at or below it; printf width limit; regenerated facts pin the constants. Correspondence: boundary programs at limit-1/limit/limit+1 for 8 recursion shapes and 5 contexts, also after histories of up to 200 000 records, fill indices incl. not-yet-arrays and huge values, 25-digit widths, JSON nesting at 10 000. Known finding K1 (the frame limit does not bound the Go stack) is reported as KNOWN-FINDING.",
          "Lean kernel; that 4096 jqawk frames fit in Go's stack is runtime evidence, and K1 shows it fails for deeply nested bodies."),
 }
 
